@@ -29,9 +29,10 @@ SPEC = dict(
     manifest=dict(
         text="Lean theorems for all client rates in [0,2^31), all trace rates and all histories of the collector model: merge_formula "
              "(final = max(client,1)*traceRate, no overflow, final/original metadata fields, >= 1), its lifting to the three forwarding "
-             "paths (ontime_merge/ontime_uses_trace_rate, late_merge, stress_uses_stress_rate), late_uses_stored_rate (after a keep "
-             "decision and ANY later history a span of the trace is multiplied by uint32(rate)), late_uses_record_partial (< 2^32), "
-             "late_uses_record_refuted (2^32 is stored as 0), sampler_floor, router_rates; model tied to collect.go / collector_worker.go / "
+             "paths (ontime_merge/ontime_uses_trace_rate, late_merge, stress_uses_stress_rate), late_uses_record (after a keep decision "
+             "with any rate a Go uint can hold and ANY later history a span of the trace is multiplied, in uint arithmetic, by the decision's "
+             "rate; the record keeps it at full width since fix f8ca427), late_uses_stored_rate (< 2^32: exact product and metadata fields, "
+             "both late paths), stress_later_spans, sampler_floor, router_rates; model tied to collect.go / collector_worker.go / "
              "cuckooSentCache.go by replaying generated histories on a real InMemCollector and comparing SampleRate and every metadata "
              "field of every forwarded span, plus a monitor that recomputes the expected rate from the sampler's own answer.",
         note="Trusted: Lean kernel; the Go harness/oracle differential check (sampled, not exhaustive); repository mocks (MockConfig, MockTransmission); sampler and stress-reliever answers are parameters.",
